@@ -559,3 +559,25 @@ impl LspAnalysisResult {
         vec![]
     }
 }
+
+/// Verification hooks (read-only): the parsed file as its derived `Debug` text, and the node
+/// that each of the two offset searches of `lsp_helper` picks, as (node id, lo, hi).
+#[cfg(abra_verif)]
+impl LspAnalysisResult {
+    pub fn verif_ast_debug(&self, file_id: FileId) -> Option<String> {
+        let file_ast = self.file_asts.iter().find(|f| f.loc.file_id == file_id)?;
+        Some(format!("{:?}", file_ast))
+    }
+
+    pub fn verif_find_identifier(&self, file_id: FileId, offset: usize) -> Option<(u32, usize, usize)> {
+        let file_ast = self.file_asts.iter().find(|f| f.loc.file_id == file_id)?;
+        let node = lsp_helper::find_identifier_at_offset(file_ast, offset)?;
+        Some((node.id().id, node.location().lo, node.location().hi))
+    }
+
+    pub fn verif_find_innermost(&self, file_id: FileId, offset: usize) -> Option<(u32, usize, usize)> {
+        let file_ast = self.file_asts.iter().find(|f| f.loc.file_id == file_id)?;
+        let node = lsp_helper::find_innermost_node_at_offset(file_ast, offset)?;
+        Some((node.id().id, node.location().lo, node.location().hi))
+    }
+}
